@@ -36,7 +36,7 @@ for p in props:
         na.append({'property_id': pid, 'reason': NA.get(pid, 'check not built yet (build round in progress)')})
 m = {
  'version': 1,
- 'setup_cmd': 'cd /verif && python3 rules/extract.py default',
+ 'setup_cmd': 'cd /verif && python3 rules/extract.py default && python3 rules/selftest.py >/dev/null',
  'hooks': {'guard': 'similari_verif', 'enable': 'none: static analysis reads the unmodified source; no hook commits exist',
            'baseline_off_cmd': 'cd /repo && cargo test --workspace --no-fail-fast --offline', 'source_commits': [], 'add_only': True},
  'engines': [
